@@ -28,6 +28,20 @@ def enzyme(name):
     return getattr(R, name)
 
 
+def isoschizomer_names(name):
+    """other Bio.Restriction enzymes with the same (site, cut offset, overhang length) as `name`"""
+    import Bio.Restriction as R
+    from . import asmmon
+
+    enz = enzyme(name)
+    geom = refmodel.geometry(enz)
+    out = []
+    for e in sorted(R.AllEnzymes, key=str):
+        if e is not enz and asmmon.supported_cutter(e) and refmodel.geometry(e) == geom:
+            out.append(str(e))
+    return out
+
+
 def enzyme_names():
     return [str(e) for e in refmodel.supported_enzymes()]
 
